@@ -2,6 +2,7 @@ import OrbitModel.Proofs.LoadLimit
 import OrbitModel.Proofs.LoadNoPanic
 import OrbitModel.Proofs.LoadChain
 import OrbitModel.Proofs.LoadExamples
+import OrbitModel.Proofs.GenEq
 /-!
 # C15 — `Load(n)` shows the newest `min(n, total)` entries, in order; `n ≤ 0` loads all; never panics
 
@@ -22,6 +23,10 @@ namespace Orbit.C15
 theorem effective_limit (amount : Int) (mh : Option Int) :
     (loadAmount amount mh = -1 ↔ effAmount amount mh ≤ 0) ∧
     (0 < effAmount amount mh → loadAmount amount mh = effAmount amount mh) := loadAmount_spec amount mh
+
+/-- the normalisation at the top of `Load` in the Go text of this run is the one of the theorem -/
+theorem limit_normalisation_tied_to_go_text (amount : Int) (mh : Option Int) :
+    Gen.genLoadAmount mh.isSome (mh.getD 0) amount = loadAmount amount mh := gen_loadAmount amount mh
 
 /-- `Join(size)` panics exactly when asked to keep more than there is — what the clamp must avoid -/
 theorem trim_panics_iff (L : Log) (size : Nat) : trim L size = .error .panic ↔ size > (values L).length :=
